@@ -91,6 +91,8 @@ def preserving(t, rng, ctx="val", depth=0):
     if c == "vec2arr":
         return tg.arr(t.kids[0], rng.choice([1, 2, 3, 5])), "vector<T> ~ array<T,N>"
     if c == "arr2vec":
+        if t.kids[0].cpp == "bool":
+            return t, None
         return tg.vec(t.kids[0]), "vector<T> ~ array<T,N>"
     if c == "vec2lb":
         e = t.kids[0]
